@@ -500,6 +500,25 @@ func deleteStmt(st ast.Stmt) bool {
 	return len(ch) > 0 && (ch[len(ch)-1] == "Scopevar" || ch[len(ch)-1] == "scopeVar")
 }
 
+// blankAssign: `_, _ = a, b` with plain identifiers on the right: no effect on the scope
+func blankAssign(st ast.Stmt) bool {
+	as, ok := st.(*ast.AssignStmt)
+	if !ok || as.Tok != token.ASSIGN {
+		return false
+	}
+	for _, l := range as.Lhs {
+		if !isIdent(l, "_") {
+			return false
+		}
+	}
+	for _, r := range as.Rhs {
+		if _, ok := r.(*ast.Ident); !ok {
+			return false
+		}
+	}
+	return true
+}
+
 func svKind(del, restore bool) string {
 	switch {
 	case del && restore:
@@ -550,6 +569,9 @@ func lhsOverRhsScopeVar(f *ast.File) string {
 					restore = true
 				default:
 					if _, ok := bs.(*ast.ReturnStmt); ok {
+						continue
+					}
+					if blankAssign(bs) {
 						continue
 					}
 					return "SvUnknown"
